@@ -372,7 +372,7 @@ struct Logger : M::LoggerInterface {
 #ifndef VH_TYPED_MAX
 #define VH_TYPED_MAX 9
 #endif
-static unsigned g_apiTick = 0;
+static unsigned g_apiTick = 0, g_aliasTick = 0;
 static inline bool typedNow() { return VH_N <= VH_TYPED_MAX && (((++g_apiTick * 2654435761u) >> 13) & 1u) != 0; }
 
 template <int I, int E> struct Disp {
@@ -546,7 +546,12 @@ template <> struct Perform<2> {
 			return 0; }
 #if VH_PAY
 		if (!std::strcmp(a.k, "W")) {
-			const Pay pay = mkPay(a.p);
+			const Pay fresh = mkPay(a.p);
+			// when the waiting request already carries this very token, every other time the user code forwards that request's own
+			// payload object (control.changeWith(d, *control.request().payload())): the argument then aliases the storage being replaced
+			const Pay* src = &fresh;
+			if (c.request() && c.request().payload() && tokOf(c.request().payload()) == a.p && (++g_aliasTick & 1u)) src = c.request().payload();
+			const Pay& pay = *src;
 			if (typedNow()) { F_changeWith<C> f = { c, pay }; typed(a.a, f); } else c.changeWith(static_cast<ffsm2::StateID>(a.a), pay);
 			return 0; }
 #endif
@@ -805,6 +810,9 @@ static void construct(Inst& in, int fill, uint64_t fillSeed) {
 #if VH_LOG
 	M::LoggerInterface* lg = in.loggerOn ? &in.logger : nullptr;
 #endif
+	static unsigned ctorTick = 0;
+	const bool alt = (++ctorTick & 1u) != 0;		// every other construction goes through the alternative constructor / context set-up
+	(void) alt;
 #if VH_CTX == 0
 	#if VH_LOG
 		in.m = new (where) FSM::Instance{lg};
@@ -812,10 +820,19 @@ static void construct(Inst& in, int fill, uint64_t fillSeed) {
 		in.m = new (where) FSM::Instance{};
 	#endif
 #elif VH_CTX == 3
+	// pointer context: given to the constructor, or left null and supplied with setContext() afterwards
 	#if VH_LOG
-		in.m = new (where) FSM::Instance{&in.ctx, lg};
+		in.m = new (where) FSM::Instance{alt ? nullptr : &in.ctx, lg};
 	#else
-		in.m = new (where) FSM::Instance{&in.ctx};
+		in.m = alt ? new (where) FSM::Instance{} : new (where) FSM::Instance{&in.ctx};
+	#endif
+		if (alt) in.m->setContext(&in.ctx);
+#elif VH_CTX == 1
+	// value context: copied from an lvalue (Context&) or moved from a temporary (PureContext&&)
+	#if VH_LOG
+		in.m = alt ? new (where) FSM::Instance{Ctx(in.ctx), lg} : new (where) FSM::Instance{in.ctx, lg};
+	#else
+		in.m = alt ? new (where) FSM::Instance{Ctx(in.ctx)} : new (where) FSM::Instance{in.ctx};
 	#endif
 #else
 	#if VH_LOG
@@ -905,7 +922,7 @@ static bool execOp(int idx, const Op& o) {
 	else if (op == "to")	 { if (typedNow()) { F_changeTo<FSM::Instance> f = { *in.m }; typed(static_cast<int>(o.a), f); } else in.m->changeTo(static_cast<ffsm2::StateID>(o.a)); }
 	else if (op == "ito")	 { if (typedNow()) { F_immediateChangeTo<FSM::Instance> f = { *in.m }; typed(static_cast<int>(o.a), f); } else in.m->immediateChangeTo(static_cast<ffsm2::StateID>(o.a)); }
 #if VH_PAY
-	else if (op == "with")	 { const Pay pay = mkPay(static_cast<int>(o.p));
+	else if (op == "with")	 { const Pay pay = mkPay(static_cast<int>(o.p));		// (the machine offers no accessor to the waiting request, so nothing can alias it here)
 							   if (typedNow()) { F_changeWith<FSM::Instance> f = { *in.m, pay }; typed(static_cast<int>(o.a), f); } else in.m->changeWith(static_cast<ffsm2::StateID>(o.a), pay); }
 	else if (op == "iwith")	 { const Pay pay = mkPay(static_cast<int>(o.p));
 							   if (typedNow()) { F_immediateChangeWith<FSM::Instance> f = { *in.m, pay }; typed(static_cast<int>(o.a), f); } else in.m->immediateChangeWith(static_cast<ffsm2::StateID>(o.a), pay); }
